@@ -480,15 +480,36 @@ impl Link {
         let do_rand = self.rand_partition(global_config.message_loss(), rand);
         match (self.state_a_b, self.state_b_a) {
             (State::Healthy, _) | (_, State::Healthy) if do_rand => {
-                self.state_a_b = State::RandPartition;
-                self.state_b_a = State::RandPartition;
+                // Only healthy directions fail at random. A direction that
+                // was explicitly partitioned (or is held) keeps its state so
+                // that a later random repair cannot heal it.
+                let fail_a_b = matches!(self.state_a_b, State::Healthy);
+                let fail_b_a = matches!(self.state_b_a, State::Healthy);
+                if fail_a_b {
+                    self.state_a_b = State::RandPartition;
+                }
+                if fail_b_a {
+                    self.state_b_a = State::RandPartition;
+                }
 
-                self.sent.clear();
+                self.sent.retain(|sent| {
+                    if sent.src.ip() < sent.dst.ip() {
+                        !fail_a_b
+                    } else {
+                        !fail_b_a
+                    }
+                });
             }
             (State::RandPartition, _) | (_, State::RandPartition)
                 if self.rand_repair(global_config.message_loss(), rand) =>
             {
-                self.release();
+                // Only randomly partitioned directions are repaired.
+                if matches!(self.state_a_b, State::RandPartition) {
+                    self.state_a_b = State::Healthy;
+                }
+                if matches!(self.state_b_a, State::RandPartition) {
+                    self.state_b_a = State::Healthy;
+                }
             }
             _ => {}
         }
